@@ -66,6 +66,29 @@ Definition steps_zip (n : nat) (script : list fmsg) :=
 Definition steps_hub (k : hkind) (n : nat) (script : list hmsg) :=
   steps_from (hub_recv k) h_alive snap_hub enc_hout (hub_init n) [] script.
 
+Definition steps_merge_ns (n : nat) (script : list fmsg) :=
+  steps_from merge_recv m_alive (fun _ => []) enc_jout (merge_init n) (wire_of n) script.
+Definition steps_concat_ns (n : nat) (script : list fmsg) :=
+  steps_from concat_recv c_alive (fun _ => []) enc_jout (concat_init n) (wire_of n) script.
+Definition steps_zip_ns (n : nat) (script : list fmsg) :=
+  steps_from zip_recv z_alive (fun _ => []) enc_jout (zip_init n) (wire_of n) script.
+Definition steps_hub_ns (k : hkind) (n : nat) (script : list hmsg) :=
+  steps_from (hub_recv k) h_alive (fun _ => []) enc_hout (hub_init n) [] script.
+
+(* ---- the FIFO queue of stream/queue.go against its list model ---- *)
+Inductive qop := QPush (v : Z) | QPop.
+(* observation per op: pop -> the popped value (or -1 when empty, the harness never pops an empty queue),
+   followed by the number of live elements *)
+Fixpoint qrun (q : list Z) (ops : list qop) : list Z :=
+  match ops with
+  | [] => []
+  | QPush v :: r => Z.of_nat (length (q ++ [v])) :: qrun (q ++ [v]) r
+  | QPop :: r => match q with
+                 | x :: q' => x :: Z.of_nat (length q') :: qrun q' r
+                 | [] => (-1) :: 0 :: qrun [] r
+                 end
+  end.
+
 (* ---- black-box verdicts ---- *)
 Fixpoint zll_all {A} (f : nat -> A -> bool) (i : nat) (l : list A) : bool :=
   match l with [] => true | x :: r => f i x && zll_all f (S i) r end.
